@@ -65,6 +65,13 @@ Family(deep) == UNION {{[table |-> t.name, side |-> t.side, n |-> k] :
 (* structure, or not be a readable file                                                                        *)
 Degenerate == {"empty", "magic_only", "header_only", "data_only", "no_endsec", "no_end_marker", "missing_file", "directory", "nul_bytes", "binary_noise"}
 
+(* numerals at and beyond the ends of the number types: the reader converts them with library routines that signal   *)
+(* range errors in their own ways (errno, exceptions, saturation); whatever they do, the run must stay a SafeRun      *)
+ExtremeNumerals == {[kind |-> "real", text |-> t] : t \in {"1.0E400", "-1.0E400", "1.0E-400", "4.9E-324", "2.E-308", "1.7976931348623157E308",
+                                                            "1.8E308", "0.0E999999999", "1.E2147483648", "1.E-2147483649"}}
+                   \cup {[kind |-> "int", text |-> t] : t \in {"9223372036854775807", "9223372036854775808", "-9223372036854775809",
+                                                               "99999999999999999999999999999999", "2147483648"}}
+
 (* the same on the EXPRESS side: a text that ends inside a token - the scanner reads ahead for the end of a tail   *)
 (* remark, a string, an encoded string, an embedded remark, a number - or that is not a schema text at all         *)
 DegenerateExpress == {"empty", "no_final_newline", "eof_in_tail_remark", "eof_in_remark_after_semicolon", "eof_in_string",
